@@ -152,7 +152,14 @@ pub fn check_a(prop: &str, tier: Tier, selftest: Value) -> i32 {
     let mut vacuous = Vec::new();
     let mut min_bound: Option<u32> = None;
     let mut all_unbounded = true;
+    let only = std::env::var("VERIF_ONLY_SCENARIO").ok();
     for it in &items {
+        if let Some(o) = &only {
+            // development aid: run a single scenario (the evidence then covers only that one)
+            if &it.run.name() != o {
+                continue;
+            }
+        }
         let cfg = Config {
             property: prop.to_string(),
             bound: it.bound,
